@@ -31,65 +31,65 @@ func (o *Off) String() string {
 
 // Ev is one journal event. K selects which fields are meaningful (see the K* constants).
 type Ev struct {
-	N   int    `json:"n"`            // global event sequence number
-	St  int    `json:"st"`           // scheduler step during which it happened
-	T   int64  `json:"t"`            // fake time, ns since run start
-	K   string `json:"k"`            // kind
-	M   int    `json:"m,omitempty"`  // member (1-based), 0 = none
-	Vb  int    `json:"vb"`           // vBucket, -1 = none
-	Seq uint64 `json:"seq,omitempty"`
-	Key []byte `json:"key,omitempty"`
-	S   string `json:"s,omitempty"`  // name / command / status / kind, by K
-	S2  string `json:"s2,omitempty"` // secondary string
-	I   int64  `json:"i,omitempty"`
-	U   uint64 `json:"u,omitempty"`
-	U2  uint64 `json:"u2,omitempty"`
-	B   bool   `json:"b,omitempty"`
-	Off *Off   `json:"off,omitempty"`
-	Raw []byte `json:"raw,omitempty"`
+	N   int                `json:"n"`           // global event sequence number
+	St  int                `json:"st"`          // scheduler step during which it happened
+	T   int64              `json:"t"`           // fake time, ns since run start
+	K   string             `json:"k"`           // kind
+	M   int                `json:"m,omitempty"` // member (1-based), 0 = none
+	Vb  int                `json:"vb"`          // vBucket, -1 = none
+	Seq uint64             `json:"seq,omitempty"`
+	Key []byte             `json:"key,omitempty"`
+	S   string             `json:"s,omitempty"`  // name / command / status / kind, by K
+	S2  string             `json:"s2,omitempty"` // secondary string
+	I   int64              `json:"i,omitempty"`
+	U   uint64             `json:"u,omitempty"`
+	U2  uint64             `json:"u2,omitempty"`
+	B   bool               `json:"b,omitempty"`
+	Off *Off               `json:"off,omitempty"`
+	Raw []byte             `json:"raw,omitempty"`
 	F   map[string]float64 `json:"f,omitempty"`
 	L   []uint64           `json:"l,omitempty"`
 	A   map[string]string  `json:"a,omitempty"`
-	ID  string `json:"id,omitempty"` // request / call / event identity
+	ID  string             `json:"id,omitempty"` // request / call / event identity
 }
 
 // Event kinds.
 const (
-	KRun     = "run"      // S=property, S2=scenario, A=params, I=seed
-	KStep    = "step"     // ID=chosen action id, I=index chosen, U=number of enabled actions
-	KReq     = "req"      // request arrived at node: ID=req id, S=command, Vb, Key, M
-	KRsp     = "rsp"      // reply sent: ID=req id, S=command, S2=status, M
-	KSReq    = "sreq"     // STREAM_REQ answered: M, Vb, Off(uuid,seq=start,ss,se,latest=end), U=flags, S2=status, U2=rollback seq, L=failover log (uuid,seq pairs), ID=stream id
-	KKVW     = "kvw"      // KV write applied at node: M, Key, S=op, S2=bucket, Raw=xattr payload or body, Off=parsed checkpoint (if any), Vb=ckpt vb (or -1), U=cas
-	KKVR     = "kvr"      // KV read answered: M, Key, S=op, S2=status, Raw=payload
-	KEmit    = "emit"     // DCP message handed to a connection: M, Vb, S=kind, Seq, Key, U=snap start, U2=snap end (marker), ID=stream id, I=cas, A=other fields
-	KSeqnos  = "seqnos"   // GET_ALL_VB_SEQNOS answered: M, L=(vb,seq pairs), I=collection filter or -1, S=agent role
-	KObs     = "obs"      // OBSERVE_SEQNO answered: M, Vb, I=replica idx, U=uuid, U2=persisted, Seq=current, S2=status
-	KFlog    = "flog"     // failover log answered: M, Vb, L=pairs, S2=status
-	KConsume = "consume"  // ConsumeEvent invoked: M, Vb, Seq, S=kind, Key, Off, ID=event id, A=all other fields
-	KConsEnd = "consend"  // ConsumeEvent returned: M, ID
-	KAck     = "ack"      // Ack invoked: M, Vb, Seq, ID=event id
-	KAckEnd  = "ackend"   // Ack returned
-	KTrack   = "track"    // TrackOffset invoked: M, Vb, Off
-	KHandler = "handler"  // lifecycle callback: M, S=name
-	KCall    = "call"     // blocking API call begins: M, S=name, ID
-	KRet     = "ret"      // ... returns: M, S=name, ID, S2=result
-	KReady   = "ready"    // member signalled readiness
-	KScrape  = "scrape"   // metrics scraped: M, F=values (name{labels}), B=ok
-	KAPI     = "api"      // HTTP API request answered: M, S=method+path, S2=body, I=status
-	KCrash   = "crash"    // member crashed (injected): M
-	KFault   = "fault"    // fault injected: S=kind, ID=target
-	KProbe   = "probe"    // reach probe hit: S=name
-	KNote    = "note"     // free text: S
-	KWrite   = "extw"     // external write applied to the bucket: Vb, Seq, S=kind, Key
-	KPersist = "persist"  // copy state changed: Vb, I=replica idx, U=uuid, U2=persisted
-	KDisk    = "disk"     // simulated disk event: S=op, S2=file, Raw=content, B=ok
-	KConn    = "conn"     // connection event: S=open|close|drop, ID=conn id, M
-	KQuiesce = "quiesce"  // quiesce phase begins
-	KEnd     = "end"      // run finished normally: S=reason
-	KExpect  = "expect"   // scenario declares a legitimate fail-stop from now on: S=message substring
-	KPublish = "publish"  // membership notification published: M, S=via, I=number, U=total, B=changed(by publisher's own filter)
-	KMember  = "member"   // member started: M, A=config
+	KRun     = "run"     // S=property, S2=scenario, A=params, I=seed
+	KStep    = "step"    // ID=chosen action id, I=index chosen, U=number of enabled actions
+	KReq     = "req"     // request arrived at node: ID=req id, S=command, Vb, Key, M
+	KRsp     = "rsp"     // reply sent: ID=req id, S=command, S2=status, M
+	KSReq    = "sreq"    // STREAM_REQ answered: M, Vb, Off(uuid,seq=start,ss,se,latest=end), U=flags, S2=status, U2=rollback seq, L=failover log (uuid,seq pairs), ID=stream id
+	KKVW     = "kvw"     // KV write applied at node: M, Key, S=op, S2=bucket, Raw=xattr payload or body, Off=parsed checkpoint (if any), Vb=ckpt vb (or -1), U=cas
+	KKVR     = "kvr"     // KV read answered: M, Key, S=op, S2=status, Raw=payload
+	KEmit    = "emit"    // DCP message handed to a connection: M, Vb, S=kind, Seq, Key, U=snap start, U2=snap end (marker), ID=stream id, I=cas, A=other fields
+	KSeqnos  = "seqnos"  // GET_ALL_VB_SEQNOS answered: M, L=(vb,seq pairs), I=collection filter or -1, S=agent role
+	KObs     = "obs"     // OBSERVE_SEQNO answered: M, Vb, I=replica idx, U=uuid, U2=persisted, Seq=current, S2=status
+	KFlog    = "flog"    // failover log answered: M, Vb, L=pairs, S2=status
+	KConsume = "consume" // ConsumeEvent invoked: M, Vb, Seq, S=kind, Key, Off, ID=event id, A=all other fields
+	KConsEnd = "consend" // ConsumeEvent returned: M, ID
+	KAck     = "ack"     // Ack invoked: M, Vb, Seq, ID=event id
+	KAckEnd  = "ackend"  // Ack returned
+	KTrack   = "track"   // TrackOffset invoked: M, Vb, Off
+	KHandler = "handler" // lifecycle callback: M, S=name
+	KCall    = "call"    // blocking API call begins: M, S=name, ID
+	KRet     = "ret"     // ... returns: M, S=name, ID, S2=result
+	KReady   = "ready"   // member signalled readiness
+	KScrape  = "scrape"  // metrics scraped: M, F=values (name{labels}), B=ok
+	KAPI     = "api"     // HTTP API request answered: M, S=method+path, S2=body, I=status
+	KCrash   = "crash"   // member crashed (injected): M
+	KFault   = "fault"   // fault injected: S=kind, ID=target
+	KProbe   = "probe"   // reach probe hit: S=name
+	KNote    = "note"    // free text: S
+	KWrite   = "extw"    // external write applied to the bucket: Vb, Seq, S=kind, Key
+	KPersist = "persist" // copy state changed: Vb, I=replica idx, U=uuid, U2=persisted
+	KDisk    = "disk"    // simulated disk event: S=op, S2=file, Raw=content, B=ok
+	KConn    = "conn"    // connection event: S=open|close|drop, ID=conn id, M
+	KQuiesce = "quiesce" // quiesce phase begins
+	KEnd     = "end"     // run finished normally: S=reason
+	KExpect  = "expect"  // scenario declares a legitimate fail-stop from now on: S=message substring
+	KPublish = "publish" // membership notification published: M, S=via, I=number, U=total, B=changed(by publisher's own filter)
+	KMember  = "member"  // member started: M, A=config
 )
 
 // Writer writes events as JSON lines with one Write call per event.
